@@ -473,6 +473,114 @@ Definition prop_big (md : mode) (hc seq : bool) (n : nat) (m t : Z) (k : nat) (o
   | _ => false
   end.
 
+(* ---------- several runs on ONE collector ----------
+   The collector is read back after every step. Model: the content accumulates (run_effect):
+   a completed run appends its log, a panicking run and clear-less steps change nothing,
+   clear() empties it. Property instance, relative to the content OBSERVED before the step:
+   a log-mode run with the collector attached adds exactly one entry per invalid record of that
+   run; every other run leaves the content as it was; fail-fast fails iff some record is invalid. *)
+Inductive mstep := MRun (md : mode) (hc seq : bool) (rows : list (list Z)) | MClear.
+Definition dec_mstep (keyed : bool) (j : J) : option mstep :=
+  match j with
+  | JL [JI z] => if z =? 9 then Some MClear else None
+  | JL [JI md; jhc; JI ex; JI _; jrows] =>
+      match mode_of md, jbit jhc, dec_rows keyed jrows with
+      | Some m, Some hc, Some rows =>
+          if (ex =? 0) || (ex =? 1) then Some (MRun m hc (ex =? 0) rows) else None
+      | _, _, _ => None
+      end
+  | _ => None
+  end.
+Inductive mobs :=
+| MOOk (rows : list (list Z)) (entries : list (Z * Z * list Z)) (count : Z)
+| MOPanic (entries : list (Z * Z * list Z)) (count : Z)
+| MOErr
+| MOClear (entries : list (Z * Z * list Z)) (count : Z).
+Definition dec_mobs (keyed : bool) (j : J) : option mobs :=
+  match j with
+  | JL [t; jr; je; JI c] =>
+      if jtag_is "ok" t then
+        match dec_rows keyed jr, dec_entries je with
+        | Some r, Some e => Some (MOOk r e c)
+        | _, _ => None
+        end
+      else None
+  | JL [t; je; JI c] =>
+      match dec_entries je with
+      | Some e => if jtag_is "panic" t then Some (MOPanic e c)
+                  else if jtag_is "clear" t then Some (MOClear e c)
+                  else if jtag_is "err" t then Some MOErr else None
+      | None => None
+      end
+  | _ => None
+  end.
+Definition obs_full (e : Z * Z * list Z) : list Z := fst (fst e) :: snd (fst e) :: snd e.
+Definition mobs_entries (o : mobs) : list (Z * Z * list Z) :=
+  match o with MOOk _ e _ | MOPanic e _ | MOClear e _ => e | MOErr => [] end.
+
+(* does the observed content `oes` (count cnt) match the model content mc? *)
+Definition content_agrees (prefix : Z) (exact : bool) (mc : list (entry Z))
+           (oes : list (Z * Z * list Z)) (cnt : Z) : bool :=
+  (cnt =? Z.of_nat (List.length mc)) && (Z.of_nat (List.length oes) =? cnt) &&
+  forallb (fun e => (fst (fst e) =? prefix) && (0 <=? snd (fst e))) oes &&
+  mset_eqb (map (@e_errors Z) mc) (map obs_payload oes) &&
+  (if exact then mset_eqb (map entry_code mc) (map obs_code oes) else true).
+
+(* state: model content, "all its entries come from sequential runs", content observed before *)
+Fixpoint judge_multi (keyed : bool) (mc : list (entry Z)) (exact : bool)
+         (prev : list (Z * Z * list Z)) (steps : list mstep) (os : list mobs)
+  : option (bool * bool) :=
+  match steps, os with
+  | [], [] => Some (true, true)
+  | MClear :: steps', o :: os' =>
+      let ok := match o with MOClear [] 0 => true | _ => false end in
+      match judge_multi keyed [] true [] steps' os' with
+      | Some (a, p) => Some (ok && a, ok && p)
+      | None => None
+      end
+  | MRun md hc seq rows :: steps', o :: os' =>
+      let prefix := if keyed then 1 else 0 in
+      let m := if keyed then model_run_keyed md hc rows else model_run md hc rows in
+      let '(mc', exact', a1) :=
+        match m, o with
+        | Ok (out, lg), MOOk orows oes cnt =>
+            let mc' := mc ++ lg in
+            let exact' := exact && (seq || match lg with [] => true | _ => false end) in
+            (mc', exact', ll_eqb out orows && content_agrees prefix exact' mc' oes cnt)
+        | Panic, MOPanic oes cnt => (mc, exact, content_agrees prefix exact mc oes cnt)
+        | Ok (_, lg), _ => (mc ++ lg, false, false)
+        | _, _ => (mc, exact, false)
+        end in
+      let logs := match md with LogAndContinue => hc | _ => false end in
+      let n_bad := Z.of_nat (List.length (ref_payloads rows)) in
+      let p1 :=
+        match o with
+        | MOErr | MOClear _ _ => false
+        | MOPanic oes cnt =>
+            (match md with FailFast => 0 <? n_bad | _ => false end) &&
+            mset_eqb (map obs_full oes) (map obs_full prev) &&      (* nothing changed *)
+            (cnt =? Z.of_nat (List.length oes))
+        | MOOk orows oes cnt =>
+            (cnt =? Z.of_nat (List.length oes)) &&
+            match md with
+            | FailFast => (n_bad =? 0) && ll_eqb orows rows &&
+                          mset_eqb (map obs_full oes) (map obs_full prev)
+            | _ =>
+                ll_eqb orows (ref_keep rows) &&
+                (if logs
+                 then mset_eqb (map obs_payload oes) (map obs_payload prev ++ ref_payloads rows) &&
+                      (cnt =? Z.of_nat (List.length prev) + n_bad) &&
+                      (Z.of_nat (List.length orows) + n_bad =? Z.of_nat (List.length rows))
+                 else mset_eqb (map obs_full oes) (map obs_full prev))
+            end
+        end in
+      match judge_multi keyed mc' exact' (mobs_entries o) steps' os' with
+      | Some (a, p) => Some (a1 && a, p1 && p)
+      | None => None
+      end
+  | _, _ => None
+  end.
+
 (* ---------- entry point ---------- *)
 Definition finish (r : option (bool * bool)) : verdict :=
   match r with Some (a, p) => ok_verdict a p | None => malformed end.
@@ -494,6 +602,20 @@ Definition check_C17 (kind : string) (input output : J) : verdict :=
         | _, _, _ => malformed
         end
     | _ => malformed
+    end
+  else if String.eqb kind "multi" then
+    (* in = [keyed, threads, steps]; out = one observation per step *)
+    match input, output with
+    | JL [jk; JI _; JL jsteps], JL jos =>
+        match jbit jk with
+        | Some keyed =>
+            match omap (dec_mstep keyed) jsteps, omap (dec_mobs keyed) jos with
+            | Some steps, Some os => finish (judge_multi keyed [] true [] steps os)
+            | _, _ => malformed
+            end
+        | None => malformed
+        end
+    | _, _ => malformed
     end
   else if String.eqb kind "big" then
     (* in = [keyed, mode, has_collector, exec, threads, partitions, n, m, t, runs] *)
